@@ -303,7 +303,10 @@ def record_adapt(sc):
                 elif op == "run":
                     import elfi
                     sim.table, sim.ids = st["table"], []
-                    rej = elfi.Rejection(d, batch_size=st["bs"], seed=st["seed"], output_names=names(widths),
+                    # (the user may list the summaries among the outputs in any order: the distance's own parent order decides
+                    #  which column is which)
+                    onames = list(reversed(names(widths))) if st.get("rev_out") else names(widths)
+                    rej = elfi.Rejection(d, batch_size=st["bs"], seed=st["seed"], output_names=onames,
                                          max_parallel_batches=1)
                     if st.get("thr") is not None:
                         # a threshold objective (on the plain Euclidean distance of the fresh node): batches WITHOUT any accepted
@@ -573,7 +576,7 @@ def run_scenario(widths, obs, table, bs, n, n_sim, seed, runs=1, thr=None):
     for r in range(runs):
         # later runs see the table rotated, so every adaptation round has its own data order
         tab = table[r:] + table[:r]
-        script.append(dict(op="run", table=tab, bs=bs, n=n, n_sim=n_sim, seed=seed + r, thr=thr))
+        script.append(dict(op="run", table=tab, bs=bs, n=n, n_sim=n_sim, seed=seed + r, thr=thr, rev_out=(len(widths) > 1 and (seed + r) % 2 == 0)))
         script.append(dict(op="gen", qid=0, sums=sums_of_stacked(table[:2], widths)))
     return dict(kind="adapt", tag="run", widths=widths, obs=obs, unit=U, unitw=UW, script=script)
 
